@@ -125,6 +125,10 @@ def mode_job(job):
     path = os.path.join(tmpdir, "mode_%s_%s_%s_%s.h5" % (mode, existing, named, late))
     if not named and mode == "read":
         return []                         # read needs a name
+    kind = existing
+    existing = kind != "no"
+    if late and kind != "complete":
+        return []
     if not named and existing:
         return []                         # a temporary name never collides with an existing file
     marker = None
@@ -139,7 +143,16 @@ def mode_job(job):
             return
         state["marker"] = open(path, "rb").read()
     if existing and not late:
-        other_writer()
+        if kind == "garbage":
+            with open(path, "wb") as f_:
+                f_.write(b"not an hdf5 file\n" * 40)
+            state["marker"] = open(path, "rb").read()
+        else:
+            other_writer()
+            if kind == "flagged" and not state["err"]:
+                with real_h5py.File(path, "r+") as f_:
+                    f_.attrs["writing"] = True
+                state["marker"] = open(path, "rb").read()
     if existing and late:
         class LateProxy:
             def File(self, filename, *a, **kw):
@@ -156,7 +169,10 @@ def mode_job(job):
     pt = None
     try:
         if mode == "read":
-            pt = FileProcessTensor(mode="read", filename=path)
+            import warnings
+            with warnings.catch_warnings():
+                warnings.simplefilter("ignore")
+                pt = FileProcessTensor(mode="read", filename=path)
         else:
             pt = FileProcessTensor(mode=mode, filename=path if named else None, hilbert_space_dimension=2)
     except Exception as ex:  # pylint: disable=broad-except
@@ -284,7 +300,7 @@ def run(ctx):
                                "fail_step": job[7] if len(job) > 7 else 0})
         # mode matrix
         mjobs = [(row, tmpdir, False) for row in (modes or [])]
-        mjobs += [(row, tmpdir, True) for row in (modes or []) if row["existing"] and row["named"] and row["mode"] != "read"]
+        mjobs += [(row, tmpdir, True) for row in (modes or []) if row["existing"] == "complete" and row["named"] and row["mode"] != "read"]
         for (row, _, late), mm in zip(mjobs, core.pmap(mode_job, mjobs)):
             ctx.case({"mode": row["mode"], "existing": row["existing"], "named": row["named"], "appears_in_the_last_moment": late})
             for x in mm:
